@@ -423,7 +423,7 @@ decode_string(const unsigned char *s, size_t n)
         }
         /* the same octets as the unread rest of a longer buffer: `lead` consumed octets in front, the block ends
          * with the string - a number cut off by the end of the memory must be refused here too */
-        for (int l = 0; l < 3 && n > 0; l++) {
+        for (int l = 0; l < 3; l++) { /* n == 0: the buffer is used up - offset == size */
             const size_t lead = offlead[l];
             unsigned char *ob = offblk[l][n];
             memset(ob, 0x80, lead);
